@@ -91,4 +91,48 @@ def runToEnd (P : Params) (v : Variant) (cb : Nat → CbRet) (stack : Nat) : Nat
       { o' with msgs := o.msgs ++ o'.msgs }
     else o
 
+/-- `nrWithin n sched`: every not-ready answer in `sched` comes before the `n`-th answer of another kind,
+    i.e. (with `n` = number of blocks + 1) it is given to the block loop, never to rule evaluation. -/
+def nrWithin : Nat → List Act → Bool
+  | _, [] => true
+  | 0, a :: t => !isNR a && nrWithin 0 t
+  | n + 1, a :: t => if isNR a then nrWithin (n + 1) t else nrWithin n t
+
+/-! ### C13: the other entry points (scanner.c :705-790, rules.c :172-285)
+
+    `mem`: the bytes of the buffer as the model sees them (key of the data, size). A file or a
+    descriptor is mapped (`filemap.c`) and then scanned as memory. -/
+
+/-- the iterator `yr_scanner_scan_mem` builds on its stack: one block, `file_size` = buffer size -/
+def memIt (data : Option Nat) (size : Nat) : It :=
+  { all := [⟨0, size, data⟩], rest := [⟨0, size, data⟩], sched := [], lastError := .success, fileSize := some size }
+
+/-- `yr_scanner_scan_mem` (for buffers below YR_FILE_SIZE_THRESHOLD or rule sets without zero-length atoms,
+    where the "too slow" pre-check does not fire) -/
+def scannerScanMem (P : Params) (v : Variant) (cb : Nat → CbRet) (stack : Nat) (s : Sc) (data : Option Nat) (size : Nat) (w : World) : CallOut :=
+  scanCall P v cb stack s (memIt data size) w
+
+/-- `yr_scanner_scan_file` / `yr_scanner_scan_fd`: `map` is the outcome of yr_filemap_map(_fd): an error, or
+    the mapped bytes (an empty file is "mapped" as a NULL pointer of size 0: `none`) -/
+def scannerScanMapped (P : Params) (v : Variant) (cb : Nat → CbRet) (stack : Nat) (s : Sc)
+    (map : Except Err (Option Nat × Nat)) (w : World) : CallOut :=
+  match map with
+  | .error e => ⟨s, memIt none 0, w, [], e⟩
+  | .ok (key, size) => scannerScanMem P v cb stack s key size w
+
+/-- `yr_rules_scan_mem`: create a scanner, set callback / timeout / flags, scan, destroy -/
+def rulesScanMem (P : Params) (v : Variant) (cb : Nat → CbRet) (stack : Nat) (set : Settings) (data : Option Nat) (size : Nat) (w : World) : CallOut :=
+  scannerScanMem P v cb stack (Sc.fresh set) data size w
+
+/-- `yr_rules_scan_file` / `yr_rules_scan_fd` -/
+def rulesScanMapped (P : Params) (v : Variant) (cb : Nat → CbRet) (stack : Nat) (set : Settings)
+    (map : Except Err (Option Nat × Nat)) (w : World) : CallOut :=
+  match map with
+  | .error e => ⟨Sc.fresh set, memIt none 0, w, [], e⟩
+  | .ok (key, size) => rulesScanMem P v cb stack set key size w
+
+/-- `yr_rules_scan_mem_blocks` with a user iterator -/
+def rulesScanBlocks (P : Params) (v : Variant) (cb : Nat → CbRet) (stack : Nat) (set : Settings) (it : It) (w : World) : CallOut :=
+  scanCall P v cb stack (Sc.fresh set) it w
+
 end YaraModel.Scan
